@@ -24,7 +24,8 @@ EXPLANATION = (
     "reference bins are taken from the bank in the same order, and the data convolved are the standardised z-scores, estimate_zscore itself "
     "being equal to its definition (C15.R1 re-evaluated); (R3) "
     "every template kind of MatchFilterMethods has a generator, and a template's reference bin is validated to lie inside "
-    "it. Not decided: response values, invariance under offset/scale, recovery of a boxcar - numeric clauses."
+    "it. Not decided: response values, invariance under offset/scale, recovery of a boxcar - numeric clauses. "
+    "Since F31, R1 also requires the data, the templates and the inverse transform to have the length of the data (the period of the circular correlation)."
 )
 K = "sigpyproc.core.kernels"
 F = "sigpyproc.core.filters"
